@@ -195,6 +195,12 @@ def build(model, ranks=None, plain=False, default_resource_ids=False, share_id_o
         project.workflow.extend_child_task_list([t for t in listed if not any(t is x for x in project.workflow.task_list)])
     else:
         project.workflow.extend_child_task_list(listed)
+    listed_now = list(project.workflow.task_list)
+    if len(listed_now) != len(tasks) or any(not any(t is x for x in listed_now) for t in tasks):
+        missing = [t.ID for t in tasks if not any(t is x for x in listed_now)]
+        raise seams.SutMisbehaviour("task_not_registered_in_workflow",
+                                    "tasks %s were handed to the workflow (extend_child_task_list / task_list assignment%s) but its task_list is %s"
+                                    % (missing, ", some registered before the links were made" if late else "", [t.ID for t in listed_now]))
     b = Built()
     b.ext = ext
     b.project, b.tasks, b.comps, b.teams, b.wps = project, tasks, comps, teams, wps
